@@ -55,6 +55,7 @@ def generate(ck):
         {"cls": "single", "table": {"kind": "shipped", "name": "haynesville", "rows": "descending"}, "p_i": 8000.0, "p_f": 2000.0, "r": 8, "t_end": 5.0},
     ]
     descs.append({"cls": "single", "table": {"kind": "synthetic", "family": "falling", "prm": [0.5, 0.9, 0.5], "n": 200, "p_lo": 50.0, "p_hi": 9000.0, "grid": "uniform", "seed": 0}, "p_i": 8500.0, "p_f": 1500.0, "r": 8, "t_end": 0.6, "theta": 0.2})
+    descs.append({"cls": "single", "table": {"kind": "synthetic", "family": "const-diffusivity", "prm": [0.3, 0.6, 0.2], "n": 200, "p_lo": 50.0, "p_hi": 9000.0, "grid": "uniform", "seed": 0}, "p_i": 8000.0, "p_f": 2000.0, "r": 8, "t_end": 2.0, "coarse_nt": 41})
     n = 2 if ck.tier == "quick" else 200
     for i in range(n):
         r = int(rng.choice([4, 8, 16]))
@@ -74,6 +75,9 @@ def generate(ck):
         p_i, p_f = sim.pick_pressures(tab, float(rng.random()), ratio)
         if p_f >= p_i:
             p_f = 0.5 * (p_i + tables.pressure_range(tab)[0])
+        if i % 13 == 7:
+            descs.append({"cls": "single", "table": t, "p_i": p_i, "p_f": p_f, "r": r, "t_end": float(rng.uniform(1.0, 3.0)), "coarse_nt": int(rng.choice([21, 41, 81]))})
+            continue
         if i % 11 == 5:
             descs.append({"cls": "single", "table": t, "p_i": p_i, "p_f": p_f, "r": r, "t_end": float(rng.uniform(0.3, 1.0)), "theta": float(rng.uniform(0.08, 0.24))})
             continue
@@ -95,6 +99,9 @@ def run_case(ck, desc):
     theta = desc.get("theta")  # parabolic refinement: uniform dt = theta dx^2 (nt grows like nx^2)
     if theta:
         rungs = [10, 20, 40] + ([80] if ck.tier == "thorough" else [])
+    coarse_nt = desc.get("coarse_nt")  # space-only refinement on a fixed, coarse output time grid
+    if coarse_nt:
+        rungs = [50, 100, 200, 400, 800]
     cls = desc["cls"]
     if cls == "ideal":
         p_i = 5000.0
@@ -135,6 +142,9 @@ def run_case(ck, desc):
         if theta:
             nt = int(round(t_end * nx * nx / theta)) + 1
             t = np.linspace(0.0, t_end, nt)
+        if coarse_nt:
+            nt = coarse_nt
+            t = np.linspace(0.0, t_end, nt)
         res = IdealReservoir(nx, p_f, p_i, None) if cls == "ideal" else SinglePhaseReservoir(nx, p_f, p_i, fluid)
         sim.SIM_EVENTS.clear()
         sim.simulate(res, t, None)
@@ -146,7 +156,7 @@ def run_case(ck, desc):
         ck.count("steps_simulated", nt - 1)
         rf = np.asarray(res.recovery_factor(), dtype=float)
         plateau = (1 - p_f / p_i) if cls == "ideal" else R  # documented plateau of the flux recovery
-        late = t >= 0.05
+        late = t >= (0.4 if coarse_nt else 0.05)
         xs = (np.arange(nx) + 1) / nx
         if ref == "fourier":
             F = D.fourier_recovery(t)
@@ -173,6 +183,21 @@ def run_case(ck, desc):
         # claimed there; convergence is judged by its RATE (every doubling of nx must shrink the
         # error by at least a quarter, first order being a half) plus a loose absolute bound chi / nx
         K0r = K0f = 1.0 * chi
+    if coarse_nt:
+        # the time error O(dt) dominates and does not depend on nx: refining the mesh alone must not
+        # make things worse, and the error stays below first-order-in-space + first-order-in-time
+        dt = t_end / (coarse_nt - 1)
+        # (only the FIELD, at t >= 0.4: on a time grid this coarse the trapezoid of the t^-1/2 flux
+        # transient is meaningless - flux recovery of 30 at nx = 800 on the unchanged tree - which
+        # is discretisation of an unresolved grid, not a defect; C03 uses resolved grids)
+        for what, e in (("field", errs_fld),):
+            for k in range(len(rungs) - 1):
+                if not ck.margin("space-only refinement does not increase the error", e[k + 1], 1.15 * e[k] + 3.0 / rungs[k]):
+                    ck.violation("error-grows-under-space-refinement", {"what": what, "nx": rungs[k + 1], "errors": e, "dt": dt}, desc)
+            if not ck.margin("coarse time grid: field error <= 4/nx + 1.5 dt", e[-1], 4.0 / rungs[-1] + 1.5 * dt):
+                ck.violation("first-order-in-time-error", {"what": what, "errors": e, "dt": dt}, desc)
+        ck.count("ladders_space_only_coarse_time")
+        return bool(errs_fld[0] > 1e-4), {"ref": ref, "coarse_nt": coarse_nt, "fld_err": errs_fld}
     if theta:
         r = 1e9  # the time-quadrature term of K vanishes: dt = theta dx^2 is far finer than r nx steps
     ok_ref = True
